@@ -14,8 +14,11 @@ import (
 	"encoding/hex"
 	"fmt"
 	"math/big"
+	"os"
 	"sort"
+	"strconv"
 	"strings"
+	"time"
 
 	"github.com/dominant-strategies/go-quai/common"
 	"github.com/dominant-strategies/go-quai/core/rawdb"
@@ -219,10 +222,14 @@ type Dump struct {
 	Next    int
 	Added   *big.Int
 	Removed *big.Int
+	SnapD   []string // snapshot-side bookkeeping (empty without a snapshot layer): snapDestructs,
+	SnapA   []string // snapAccounts,
+	SnapS   []string // snapStorage keys
 }
 
 func dump(s *state.StateDB) *Dump {
 	d := &Dump{}
+	d.SnapD, d.SnapA, d.SnapS = s.VerifC12SnapBookkeeping()
 	for i, a := range addrs {
 		v := s.VerifC12Account(a, slots)
 		ad := AcctDump{Addr: i, Present: v.Present, Live: v.Live, Deleted: v.Deleted, Suicided: v.Suicided, Nonce: v.Nonce,
@@ -233,7 +240,9 @@ func dump(s *state.StateDB) *Dump {
 		d.Accts = append(d.Accts, ad)
 	}
 	d.Refund = s.GetRefund()
-	for _, l := range s.Logs() {
+	lg := s.Logs() // concatenation over the per-transaction map: order by the block-wide log index
+	sort.SliceStable(lg, func(i, j int) bool { return lg[i].Index < lg[j].Index })
+	for _, l := range lg {
 		p := -1
 		if len(l.Data) > 0 {
 			p = int(l.Data[0])
@@ -456,6 +465,12 @@ func diffState(x, y *Dump) []string {
 	if !bytesListEq(x.TrA, y.TrA) || !bytesListEq(x.TrK, y.TrK) || fmt.Sprint(x.TrV) != fmt.Sprint(y.TrV) || x.TrEmpty != y.TrEmpty {
 		add("transient")
 	}
+	if strings.Join(x.SnapD, ",") != strings.Join(y.SnapD, ",") {
+		add("snap-destructs")
+	}
+	if strings.Join(x.SnapA, ",") != strings.Join(y.SnapA, ",") || strings.Join(x.SnapS, ",") != strings.Join(y.SnapS, ",") {
+		add("snap-accounts-storage")
+	}
 	if len(x.Journal) != len(y.Journal) {
 		add("journal.length")
 	} else {
@@ -553,6 +568,9 @@ func apply(s *state.StateDB, o Op) Out {
 			r = Out{Kind: "id", N: s.Snapshot()}
 		case "Revert":
 			s.RevertToSnapshot(int(o.V))
+		case "EndTx": // transaction boundary as in core/state_processor.go applyTransaction: Finalize, then Prepare of the next one
+			s.Finalize(true)
+			s.Prepare(common.BytesToHash([]byte{0x78, byte(o.V)}), int(o.V))
 		default:
 			panic("unknown op " + o.K)
 		}
@@ -696,6 +714,10 @@ func runHistory(s *state.StateDB, h []Op) (*runResult, []failure) {
 					}
 				}
 			}
+		case "EndTx": // revisions do not survive Finalize
+			snaps = map[int]*snapInfo{}
+			keptAt = map[int]int{}
+			kept = append(kept, o)
 		default:
 			kept = append(kept, o)
 		}
@@ -753,6 +775,7 @@ type ctx struct {
 	cw     *hlib.CaseWriter
 	id     int
 	perSig map[string]int // failures reported per signature (the report keeps 200 in total)
+	treeID int            // next id of an EVM tree case
 }
 
 // evalCase runs one history with all monitors; emit = also write the Coq case.
@@ -933,6 +956,11 @@ func randomHistory(r *hlib.Rng, setup int) []Op {
 	if r.Chance(25) {
 		n = 20 + r.Intn(40)
 	}
+	return randomOps(r, s, n, false)
+}
+
+// randomOps extends the history of the shadow state s by n operations (and possibly a closing revert).
+func randomOps(r *hlib.Rng, s *state.StateDB, n int, noSize bool) []Op {
 	var h []Op
 	depthTarget := 1 + r.Intn(4)
 	for i := 0; i < n; i++ {
@@ -983,8 +1011,14 @@ func randomHistory(r *hlib.Rng, setup int) []Op {
 				if o.K == "SubSize" && s.GetSize(addrs[a]).Sign() <= 0 && !r.Chance(10) {
 					o.K = "AddSize"
 				}
+				if noSize {
+					o = Op{K: "SetNonce", A: a, V: int64(1 + r.Intn(3))}
+				}
 			case 10:
 				o = Op{K: "SetSize", A: a, V: int64(r.Intn(5))}
+				if noSize {
+					o = Op{K: "SetState", A: a, S: r.Intn(3), V: int64(r.Intn(3))}
+				}
 			case 11:
 				o = Op{K: "AddLog", V: int64(r.Intn(200))}
 			case 12:
@@ -1012,11 +1046,20 @@ func randomHistory(r *hlib.Rng, setup int) []Op {
 		}
 		apply(s, o)
 		h = append(h, o)
+		if noSize && o.K == "CreateAccount" { // block level: the write the EVM makes right after CreateAccount
+			o2 := Op{K: "SetNonce", A: o.A, V: 1}
+			if r.Bool() {
+				o2 = Op{K: "AddBalance", A: o.A, V: int64(1 + r.Intn(3))}
+			}
+			apply(s, o2)
+			h = append(h, o2)
+		}
 	}
 	// close some open frames by reverting (a failed outer frame)
 	ids, _, _ := s.VerifC12Revisions()
 	if len(ids) > 0 && r.Chance(70) {
 		o := rev(ids[r.Intn(len(ids))])
+		apply(s, o)
 		h = append(h, o)
 	}
 	return h
@@ -1030,9 +1073,35 @@ func main() {
 		"(corpus incl. the F8 witness, exhaustive prefix+reverted-body sequences over a 22-op alphabet, random long histories); "+
 		"non-trivial = at least one successful revert that undoes journal entries; distinct by (pre-state, set of op kinds, number of such reverts)")
 	cw := hlib.NewCaseWriter(f.Out, "From Coq Require Import List NArith ZArith Bool.\nFrom GQ Require Import Lib.Key Lib.SMap Model.C12.\nImport ListNotations.\nLocal Open Scope N_scope.\n", "C12.case", 65)
-	c := &ctx{rep: rep, cw: cw, perSig: map[string]int{}}
+	c := &ctx{rep: rep, cw: cw, perSig: map[string]int{}, treeID: 910000}
 
 	if f.Replay != "" {
+		var mode struct {
+			Mode string `json:"mode"`
+		}
+		hlib.ReadReplayCase(f.Replay, &mode)
+		switch mode.Mode {
+		case "tree":
+			var tc TreeCase
+			hlib.ReadReplayCase(f.Replay, &tc)
+			if tc.ID >= 0 {
+				c.treeID = tc.ID
+			}
+			c.evalTree(tc.Tree, tc.Ptn, "replay", tc.ID >= 0)
+		case "top":
+			var tc TopCase
+			hlib.ReadReplayCase(f.Replay, &tc)
+			c.evalTop(tc)
+		case "block":
+			var bc BlockCase
+			hlib.ReadReplayCase(f.Replay, &bc)
+			c.evalBlock(bc.Base, bc.Ops, "replay")
+		}
+		if mode.Mode != "" {
+			cw.Close()
+			rep.Write(f.Out)
+			return
+		}
 		var ej EvmCase
 		hlib.ReadReplayCase(f.Replay, &ej)
 		if ej.Evm {
@@ -1057,11 +1126,32 @@ func main() {
 		return
 	}
 
+	t0 := time.Now()
+	lap := func(what string) {
+		if os.Getenv("C12_TIMING") != "" {
+			fmt.Fprintf(os.Stderr, "c12 timing: %-12s %6d ms\n", what, time.Since(t0).Milliseconds())
+		}
+		t0 = time.Now()
+	}
 	for _, cc := range corpus() {
 		c.evalCase(cc.setup, cc.ops, "corpus", true)
 	}
 	evmCases(c, "")
 	createCases(c, "")
+	topCases(c, "")
+	lap("corpus+top")
+	nTrees := 250
+	if f.Tier == "thorough" {
+		nTrees = 3000
+	}
+	if v, err := strconv.Atoi(os.Getenv("C12_TREES")); err == nil && v > 0 { // experiments only
+		nTrees = v
+	}
+	rng2 := hlib.NewRng(f.Seed + 0x9e3779b9) // own stream: the generators below keep the one they always had
+	treeCases(c, rng2.Fork(), nTrees)
+	lap("trees")
+	blockCases(c, rng2.Fork(), f.Tier == "thorough")
+	lap("blocks")
 	al := alphabet()
 	small := append(append([]Op{}, al[:9]...), Op{K: "Suicide", A: 1}, Op{K: "AddBalance", A: 1, V: 2}, Op{K: "AddLog", V: 1})
 	if f.Tier == "thorough" {
@@ -1087,6 +1177,7 @@ func main() {
 		h := randomHistory(rng.Fork(), su)
 		c.evalCase(su, h, "random", true)
 	}
+	lap("histories")
 	cw.Close()
 	rep.Write(f.Out)
 }
